@@ -12,6 +12,16 @@ CLAIMS = {
     "C19": dict(text="Theorems over a dual-number model of val_clamp and the transparent activations: value = min(1,max(0,x)), tangent passes unchanged for every direction, hence every partial derivative of a saturated And/Or/Implies equals that of the unclamped linear form (all arities/parameters); tie: val_clamp body matched verbatim by the extractor + exact comparison with torch.autograd.grad.",
                 design="7/C19", technique="Coq proof (dual numbers) + exact autograd correspondence"),
 }
+CLAIMS.update({
+    "C01": dict(text="Theorem C01_sound: for every knowledge base (objects = indices: shared objects and structurally equal twins included), weights >= 0, any bias, both variants, alpha in (1/2,1], every interpretation consistent with the truth functions and inside the initial bounds stays inside the bounds of every object after ANY sequence of node-level upward/downward(index) and model-level upward/downward/infer calls (induction over the operation list; one-step lemmas by induction over the operand list); corollary: no contradiction. Tie: exact differential correspondence of the propositional engine (K3/K4) + hidden-interpretation monitor on the implementation.",
+                design="7/C01", technique="Coq proof (invariant by induction over operations) + exact differential correspondence"),
+    "C05": dict(text="Theorem C05_monotone: under Range, every sequence of public inference calls only tightens every object's bounds (aggregation = max/min + clamp). Proved for the propositional engine incl. Iff/XOr; the first-order/quantifier part is covered by the FOL model when present (see level_note).",
+                design="7/C05", technique="Coq proof (monotone invariant) + exact differential correspondence",
+                note=NOTE_TB + " Partial: the theorem covers the propositional engine; first-order tables and quantifiers are only monitored on the implementation until the FOL model lands."),
+    "C13": dict(text="Theorems C13_node_upward/_node_downward/_model_pass: the reported amount equals the total interval width removed (potential function), hence is zero iff no bound of any object changed; for connectives, Not, Iff, XOr (with the repaired accounting of sub-formulae) and model passes.",
+                design="7/C13", technique="Coq proof (potential function) + exact differential correspondence",
+                note=NOTE_TB + " Partial: propositional engine; quantifier nodes are not in the model yet."),
+})
 NA_REASON = "check not built yet in this round (planned: see DESIGN.md section 7); not claimed"
 checks, na = [], []
 for p in props:
@@ -36,7 +46,7 @@ m = {
     "setup_cmd": "bin/setup",
     "hooks": {"guard": "LNN_VERIF", "enable": "no hooks: the harness imports lnn from /repo's working tree (PYTHONPATH=/repo) and only reads public attributes",
               "baseline_off_cmd": "cd /repo && /venv/bin/python -m pytest -q -p no:cacheprovider --timeout=900 -n 12",
-              "source_commits": [], "add_only": True},
+              "source_commits": ["6592514", "3aabc63", "5319eb9"], "add_only": True},
     "engines": [{"name": "coq-model", "path": "/verif/coq", "serves_properties": sorted(CLAIMS),
                  "kind_free_text": "hand-written executable Gallina model of LNN over Q + theorems per property (Coq 8.16.1), tied to /repo by generated tables and exact differential correspondence (model extracted to OCaml)"}],
     "checks": checks,
